@@ -22,7 +22,7 @@ import (
 	"golang.org/x/tools/go/ssa/ssautil"
 )
 
-const repoDir = "/repo"
+var repoDir = "/repo"
 const modPath = "github.com/frankkopp/FrankyGo"
 
 var verifDir = "/verif"
